@@ -80,6 +80,45 @@ claim("C41",
       "Reference = a 10-line chunked encoder in the harness. Bodies <= 3 bytes, <= 2 chunks; http_get's socket handling is outside (covered once by native e2e confirmers).",
       "DESIGN.md §4/C41")
 
+claim("C06",
+      "Bounded model checking of one chunk step of the real compiled-predicate evaluator (CompiledPredicate::eval_chunk) over real 1-row "
+      "Arrow arrays: for Int64, Int32 and Date32 columns every comparison operator, literal on either side, yields the interpreter's mask "
+      "bit for ALL values; for Float64 the same outside the region where IEEE and totalOrder disagree. That region (a NaN operand, two "
+      "zeros) is a KNOWN FINDING pinned by its own harness: the compiled mask differs from the interpreter's. Partial: multi-instruction "
+      "programs (AND/OR/NOT, arithmetic), null propagation, chunk boundaries and the Compiler itself are outside (not finished within caps).",
+      "Programs are built directly in the shapes the compiler emits. Oracle = arrow-ord cmp semantics (exact integers; totalOrder for floats), "
+      "validated natively by e2e_c06_compiled_vs_interpreted_f64.",
+      "DESIGN.md §4/C06")
+claim("C16",
+      "Bounded model checking of the real parse_response on semi-concrete wire images: a complete response returns status, success flag and "
+      "exactly the body bytes that followed the header block (all body byte values); a response cut at every offset inside its head is an "
+      "error. KNOWN FINDING pinned by its own harness: a body shorter than the declared Content-Length is returned as success. Partial: one "
+      "header, bodies <= 3 bytes; sockets, time-outs and hangs (tokio) are outside.",
+      "format! in error paths is stubbed (message text irrelevant). Trusted: Kani's String/Vec models.",
+      "DESIGN.md §4/C16")
+claim("C29",
+      "Panic-freedom (Kani's arithmetic-overflow, bounds, unwrap, unreachable, division checks) of the SQL-reachable scalar kernels that CBMC "
+      "can encode, re-running harnesses of C02 (folder evaluators), C05 (statistics kernels), C21 (accumulators), C26 (frame bounds for every "
+      "u64 offset), C36 (LIKE): none panics for any input within the stated bounds. Partial, and small relative to the statement: parser, "
+      "binder, planner, stack depth and hangs are not encodable and NOT claimed.",
+      "Only Kani's own checks count for C29; the owners' functional assertions are ignored in these re-runs.",
+      "DESIGN.md §4/C29")
+claim("C36",
+      "Bounded model checking of LIKE: the real general matcher like_match and the per-batch fast path classify_like(p).matches(t) equal the "
+      "textbook LIKE definition for all texts over {a,b,c} and patterns over {a,b,%,_} up to length 2x2 and 3x3 (quick) and all remaining "
+      "length pairs <= 3 (thorough). Partial: every other scalar function takes/returns Arrow arrays (regex, chrono, serde_json, sha2 ...) "
+      "and is NOT claimed.",
+      "Oracle = dynamic-programming definition of LIKE in the harness. ASCII only; escapes outside.",
+      "DESIGN.md §4/C36")
+claim("C42",
+      "Bounded model checking of the real workers_for over all usize pairs: result in [1, max(pool,1)], never above max(work,1), exactly "
+      "min(work, pool) where defined, monotone. Partial: parse_cpulist is NOT claimed (a one-byte input did not finish in 420 s).",
+      "Trusted: Kani/CBMC.",
+      "DESIGN.md §4/C42")
+
+# checks listed here are registered in MANIFEST.json; a claim above that is not listed is pending
+REGISTERED = ["C02", "C05", "C11", "C21", "C26", "C33", "C38", "C41", "C42"]
+
 NOT_APPLICABLE = {
     "C01": "whole pipeline parse->bind->optimise->plan->execute over Arrow batches with DuckDB as oracle: async, Arrow kernels, HashMap-heavy binder; no bounded kernel carries the claim (DESIGN §5).",
     "C03": "every rule rewrites LogicalPlan trees keyed by HashMap<String,_>/string schemas; HashMap<String,_> and recursive functions over Expr are out of CBMC's reach even at depth 1 (measured, DESIGN §1/§5).",
@@ -88,6 +127,7 @@ NOT_APPLICABLE = {
     "C08": "spill decisions are inline in async operators that write and re-read Parquet files.",
     "C09": "the partial/final split is a rewrite over sqlparser ASTs to SQL text executed by whole engines; equivalence would need a hand-written SQL semantics, i.e. a model, not the code.",
     "C10": "fault handling lives in async scatter code over a transport trait, hyper and IPC decoding.",
+    "C12": "assign_lpt sorts symbolic indices with std's sort_by/sort_by_key through a comparator that indexes Vec<Split> (String fields) at symbolic positions: 3 splits x 2 nodes did not leave symbolic execution in 40 min, 2 x 2 not in 15 min; Kani 0.68 cannot stub <[T]>::sort_by (DESIGN §0).",
     "C13": "shard scans are Parquet reads with RowSelection (file I/O); the arithmetic premises are covered under C11/C12.",
     "C14": "the digest comparison is one branch inside an async fn that needs an ExecutionContext and footers.",
     "C15": "the view is a BTreeMap<String,PeerRecord> diffed through HashSet<String> with DNS and getifaddrs; two BTreeMap<String,_> inserts already exceed 40 GB in CBMC (measured).",
@@ -98,6 +138,7 @@ NOT_APPLICABLE = {
     "C22": "join semantics are implemented over Arrow batches, hashbrown tables and async build/probe phases.",
     "C23": "decorrelation rewrites plan trees; subquery execution is whole-engine.",
     "C24": "set operations are planned as Arrow-level distinct/semi/anti operators.",
+    "C25": "the LIMIT/OFFSET arithmetic (LimitState::take_from) cannot be separated from RecordBatch: slicing/dropping even a zero-column batch explores the drop glue of Arc<Schema> (hashbrown, recursive Field/DataType) -- no result in 15 min; ORDER BY itself is Arrow lexsort (DESIGN §0).",
     "C27": "grouping-set expansion happens in the binder over sqlparser ASTs and plan nodes.",
     "C28": "CTE scoping lives in binder symbol tables (HashMap<String,_>).",
     "C30": "schema agreement needs a planned and executed query.",
@@ -116,12 +157,9 @@ NOT_APPLICABLE = {
 # properties whose harnesses exist but are not yet registered (registered only once conclusive on the unchanged tree)
 PENDING = {
     "C06": "pending registration: harness/C06 (one chunk step, 1 row) is being validated.",
-    "C12": "pending: assign_lpt with std's sort over symbolic indices did not finish symbolic execution for 3 splits x 2 nodes in 300 s; a tractable bound is still being searched.",
     "C16": "pending registration: harness/C16 (semi-concrete parse_response) is being validated.",
-    "C25": "pending registration: harness/C25 (LimitState::take_from step) is being validated.",
     "C29": "pending: panic-freedom re-runs of the kernels above are registered after those are.",
     "C36": "pending registration: LIKE harness being validated.",
-    "C42": "pending: workers_for is decided; parse_cpulist did not finish within the cap even for 3 bytes; registration waits for a tractable bound.",
 }
 
 
@@ -129,7 +167,7 @@ def main():
     props = [json.loads(l)["id"] for l in open(os.path.join(VERIF, "properties.jsonl"))]
     checks = []
     for pid in props:
-        if pid in CLAIMED:
+        if pid in CLAIMED and pid in REGISTERED:
             text, note, ref = CLAIMED[pid]
             checks.append({
                 "property_id": pid,
@@ -144,7 +182,7 @@ def main():
             })
     na = []
     for pid in props:
-        if pid in CLAIMED:
+        if pid in CLAIMED and pid in REGISTERED:
             continue
         reason = NOT_APPLICABLE.get(pid) or PENDING.get(pid)
         if not reason:
